@@ -124,20 +124,22 @@ Fixpoint utf8_decode_items (s : list N) (cp : N) (seen needed : nat) (lo hi : N)
   match s with
   | [] => match needed with O => [] | _ => [DErr] end                                   (* steps 1, 2 *)
   | b :: rest =>
-      let fresh :=                                                                      (* step 3 *)
+      (* a function of unit: evaluated only in the branches that use it (the extracted code is call-by-value; a plain
+         let would be evaluated for every continuation byte as well, doubling the work each time) *)
+      let fresh := fun _ : unit =>                                                      (* step 3 *)
         match classify_lead b with
         | LAscii => DCp b :: utf8_decode_items rest 0 0 0 128 191
         | LLead c n l h => utf8_decode_items rest c 0 n l h
         | LBad => DErr :: utf8_decode_items rest 0 0 0 128 191
         end in
       match needed with
-      | O => fresh
+      | O => fresh tt
       | _ =>
           if (lo <=? b) && (b <=? hi) then                                              (* steps 5-9 *)
             let cp' := cp * 64 + (b - 128) in       (* byte & 0x3F = byte - 0x80 for byte in 0x80..0xBF *)
             if Nat.eqb (S seen) needed then DCp cp' :: utf8_decode_items rest 0 0 0 128 191
             else utf8_decode_items rest cp' (S seen) needed 128 191
-          else DErr :: fresh                                                            (* step 4: byte is restored *)
+          else DErr :: fresh tt                                                         (* step 4: byte is restored *)
       end
   end.
 
